@@ -163,8 +163,56 @@ def duplicate_names(i: int, s: int, ms: int) -> bool:
     return full == f"{scope or ''}#{local}" and local == a.local_name + SUFFIX[s] and t1.duplicate_kernels == t2.duplicate_kernels
 
 
+# ---- C23: definitions behind unqualified USE are found whatever the letter case of the call / module spelling
+_LOOKUP_SRC = '''
+module Phys_Mod
+  implicit none
+contains
+  subroutine Kernel_A(x)
+    real, intent(inout) :: x
+    x = x + 1.0
+  end subroutine Kernel_A
+  subroutine kernel_b(x)
+    real, intent(inout) :: x
+    x = x*2.0
+  end subroutine kernel_b
+end module Phys_Mod
+'''
+LOOKUP_NAMES = ['kernel_a', 'KERNEL_A', 'Kernel_A', 'kernel_b', 'Kernel_B', 'KERNEL_B', 'kernel', 'kernel_a2', 'phys_mod']
+LOOKUP_MODS = [('phys_mod',), ('Phys_Mod',), ('PHYS_MOD',), None, ('other_mod', 'phys_mod'), ('other_mod',)]
+
+
+def _lookup_factory():
+    from pathlib import Path
+    from loki import Sourcefile, Frontend
+    from loki.batch.item_factory import ItemFactory
+    cfg = SchedulerConfig.from_dict({'default': {'role': 'kernel', 'expand': True, 'strict': False}, 'routines': {}})
+    fact = ItemFactory()
+    sf = Sourcefile.from_source(_LOOKUP_SRC, frontend=Frontend.REGEX)
+    sf.path = Path('phys_mod.F90')
+    fact.get_or_create_file_item_from_source(sf, config=cfg).create_definition_items(item_factory=fact, config=cfg)
+    return fact, cfg
+
+
+_FACT, _CFG = _lookup_factory()
+
+
+def definition_lookup(si: int, mi: int) -> bool:
+    """
+    pre: 0 <= si < 9 and 0 <= mi < 6
+    post: _
+    """
+    name, mods = LOOKUP_NAMES[si], LOOKUP_MODS[mi]
+    got = _FACT.get_or_create_module_definitions_from_candidates(name, _CFG, module_names=list(mods) if mods else None)
+    defined = name.lower() in ('kernel_a', 'kernel_b')
+    visible = mods is None or any(m.lower() == 'phys_mod' for m in mods)
+    if defined and visible:
+        return len(got) == 1 and got[0].name == 'phys_mod#' + name.lower() and isinstance(got[0], ProcedureItem)
+    return len(got) == 0
+
+
 FUNCS_C21 = ['match_single_key', 'match_key_list', 'match_case_invariant']
-FUNCS_C23 = ['item_eq', 'item_hash', 'item_container_lookup', 'item_str_eq', 'item_name_parts', 'duplicate_names']
+FUNCS_C23 = ['item_eq', 'item_hash', 'item_container_lookup', 'item_str_eq', 'item_name_parts', 'duplicate_names', 'definition_lookup']
 
 
 def generate(tier, which):
